@@ -548,6 +548,28 @@ def run(ctx, search_mode=False):
             else:
                 ctx.agree("_split_line", {"line": s}, MMCIFParser._split_line(s), m)
 
+    # ---- the same file name written again with another structure: what is read back is what was written last
+    for rep in range(ctx.budget(2, 10)):
+        for fmt in ("pdb", "cif"):
+            fixed = os.path.join(real.dir, f"model_{rep}.{fmt}")
+            for k in range(3):
+                atoms = [a for a in gen_atoms(rng, int(rng.choice([2, 5, 9])), "wf") if fits(a, {fmt})]
+                if not atoms:
+                    continue
+                s_ = make_struct(atoms)
+                try:
+                    import warnings
+                    with warnings.catch_warnings():
+                        warnings.simplefilter("ignore")
+                        s_.to_file(fixed)
+                except Exception as e:  # noqa
+                    ctx.spec("write/read preserves atoms", {"same_path": True, "write": fmt, "atoms": atoms}, False, type(e).__name__, key=f"{fmt}-roundtrip:raised")
+                    continue
+                _, back = real.read(fixed, keep_non_atom_records=True)
+                spec_roundtrip(ctx, {"same_path_rewritten": k, "write": fmt, "atoms": atoms}, struct_atoms(s_), back, fmt, fmt)
+                ctx.count("same-path-rewritten:" + fmt)
+                ctx.distinct(("rewrite", rep, fmt, k))
+
     # ---- generated structures through every writer x reader chain
     n_struct = ctx.budget(150, 900)
     paths2 = [("pdb", "pdb"), ("pdb", "cif"), ("cif", "pdb"), ("cif", "cif")]
